@@ -10,6 +10,7 @@
   at the places where they branch off.
 -/
 import FocaModel.Proofs.SentInv
+import FocaModel.Props.C18
 namespace Foca
 open Foca.C07 Foca.C07H
 
@@ -49,7 +50,7 @@ theorem PresER.bindE {α β} {R : β → Prop} {m : M α} {f : α → M β} (hm 
 end
 
 section
-variable (E : Env) (τ : Id → Nat) (ids : List Id)
+variable (E : Env) (τ : Id → Nat) (ids : List Id) (K : Msg → Prop)
 
 /-- an Alive claim about one of the cluster's identities, within the wire range -/
 def CalmM (u : Member) : Prop := MW τ u ∧ u.st = .alive ∧ u.id ∈ ids
@@ -76,16 +77,16 @@ theorem CalmInv.sendReady {s : State} (h : CalmInv E τ ids s) : SendReady E (Ca
   ⟨h.2.2.1, h.2.2.2.1, h.2.2.2.2⟩
 
 /-- what a calm call may emit: datagrams of the documented shape that carry only Alive claims about the cluster's
-    identities, from an identity of the cluster, never a TurnUndead; no suspicion timer -/
+    identities, from an identity of the cluster, of a kind in `K`; no suspicion timer -/
 def CalmEff (e : Effect) : Prop :=
   match e with
-  | .send d b => ∃ h : Header, h.dst = d ∧ HWire h ∧ h.src ∈ ids ∧ h.msg ≠ .turnUndead ∧ DatagramShape E (CalmM τ ids) h b
+  | .send d b => ∃ h : Header, h.dst = d ∧ HWire h ∧ h.src ∈ ids ∧ K h.msg ∧ DatagramShape E (CalmM τ ids) h b
   | .timer _ (.s2d _ _ _) => False
   | _ => True
 
-def CalmSent (s : State) (eff : List Effect) : Prop := CalmInv E τ ids s ∧ ∀ e ∈ eff, CalmEff E τ ids e
+def CalmSent (s : State) (eff : List Effect) : Prop := CalmInv E τ ids s ∧ ∀ e ∈ eff, CalmEff E τ ids K e
 
-abbrev CalmP {α} (m : M α) : Prop := PresE (CalmSent E τ ids) m
+abbrev CalmP {α} (m : M α) : Prop := PresE (CalmSent E τ ids K) m
 
 /-- a state change that keeps identity, incarnation, membership, both backlogs and the probe number -/
 theorem CalmInv.of_same {s s' : State} (h0 : s'.id = s.id) (hi : s'.inc = s.inc) (h1 : s'.ms = s.ms)
@@ -97,15 +98,15 @@ theorem CalmInv.of_same {s s' : State} (h0 : s'.id = s.id) (hi : s'.inc = s.inc)
 
 theorem CalmP.modS_same {f : State → State} (h : ∀ s, (f s).id = s.id ∧ (f s).inc = s.inc ∧ (f s).ms = s.ms ∧
     (f s).updates = s.updates ∧ (f s).custom = s.custom ∧ (f s).probe.number = s.probe.number) :
-    CalmP E τ ids (Foca.modS f) :=
+    CalmP E τ ids K (Foca.modS f) :=
   PresE.modS_of (fun s eff hs => ⟨CalmInv.of_same E τ ids (h s).1 (h s).2.1 (h s).2.2.1 (h s).2.2.2.1 (h s).2.2.2.2.1
     (h s).2.2.2.2.2 hs.1, hs.2⟩)
 
-theorem CalmP.silent {α} {m : M α} (h : Pres (CalmInv E τ ids) m) (hs : Silent m) : CalmP E τ ids m :=
+theorem CalmP.silent {α} {m : M α} (h : Pres (CalmInv E τ ids) m) (hs : Silent m) : CalmP E τ ids K m :=
   PresE.of_pres_silent h hs
 
 /-- anything emitted that is neither a datagram nor a suspicion timer -/
-theorem CalmP.emit (e : Effect) (he : isSend e = false) (hs2 : isS2d e = false) : CalmP E τ ids (Foca.emit e) :=
+theorem CalmP.emit (e : Effect) (he : isSend e = false) (hs2 : isS2d e = false) : CalmP E τ ids K (Foca.emit e) :=
   PresE.emit_of (fun s eff h => ⟨h.1, fun x hx => by
     rcases List.mem_append.1 hx with hx | hx
     · exact h.2 x hx
@@ -178,7 +179,7 @@ theorem applyExisting_calm_summary (hd : DistinctAddrs ids) {ms ms' : List Membe
         exact ih hr (fun x hx => hinv x (by simp [hx]))
 
 theorem CalmP.membersApply (hd : DistinctAddrs ids) (u : Member) (hu : CalmM τ ids u) :
-    PresER (CalmSent E τ ids) (fun sm => sm.activeNow = true ∧ sm.conflict = .none) (Foca.membersApply u) := by
+    PresER (CalmSent E τ ids K) (fun sm => sm.activeNow = true ∧ sm.conflict = .none) (Foca.membersApply u) := by
   constructor
   intro c hc
   have h1 := (CalmInv.membersApply E τ ids u hu).run c hc.1
@@ -212,7 +213,7 @@ theorem CalmP.membersApply (hd : DistinctAddrs ids) (u : Member) (hu : CalmM τ 
         simp [applyNew, alive_active hu.2.1]
 
 theorem CalmP.membersNext :
-    PresER (CalmSent E τ ids) (fun r => ∀ m, r = some m → CalmM τ ids m) Foca.membersNext := by
+    PresER (CalmSent E τ ids K) (fun r => ∀ m, r = some m → CalmM τ ids m) Foca.membersNext := by
   constructor
   intro c hc
   obtain ⟨⟨hid, hinc, ha, hcc, hcu⟩, heff⟩ := hc
@@ -240,15 +241,15 @@ theorem CalmP.membersNext :
   · simp only [hs, Bool.false_eq_true, if_false]
     exact ⟨⟨⟨hid, hinc, ha, hcc, hcu⟩, heff⟩, key _ _ ha⟩
 
-theorem CalmP.startProbe (m : Member) : CalmP E τ ids (Foca.modS fun s => { s with probe := s.probe.start m }) :=
+theorem CalmP.startProbe (m : Member) : CalmP E τ ids K (Foca.modS fun s => { s with probe := s.probe.start m }) :=
   PresE.modS_of (fun s eff hs => by
     obtain ⟨⟨hid, hinc, ha, hcc, hcu⟩, heff⟩ := hs
     exact ⟨⟨hid, ⟨hinc.1, by simp only [Probe.start, Gen.probeNumberBump, wrapAdd8]; omega⟩, ha, hcc, hcu⟩, heff⟩)
 
 /-- `send_message` to a destination within the wire range, with a message within the range that is not a
     TurnUndead: one datagram of the calm shape -/
-theorem CalmP.sendMessage (d : Id) (m : Msg) (hd : IdWire d) (hm : MsgWire m) (hnt : m ≠ .turnUndead) :
-    CalmP E τ ids (Foca.sendMessage E d m) := by
+theorem CalmP.sendMessage (d : Id) (m : Msg) (hd : IdWire d) (hm : MsgWire m) (hk : K m) :
+    CalmP E τ ids K (Foca.sendMessage E d m) := by
   constructor
   intro c hc
   have hsh := sendMessage_shape E (CalmM τ ids) d m c (CalmInv.sendReady E τ ids hc.1)
@@ -279,9 +280,9 @@ theorem CalmP.sendMessage (d : Id) (m : Msg) (hd : IdWire d) (hm : MsgWire m) (h
       · exact heff e he
       · simp only [List.mem_singleton] at he
         subst he
-        exact ⟨⟨c.s.id, c.s.inc, d, m⟩, rfl, ⟨hid.1, hinc.1, hd, hm⟩, hid.2, hnt, hshape⟩
+        exact ⟨⟨c.s.id, c.s.inc, d, m⟩, rfl, ⟨hid.1, hinc.1, hd, hm⟩, hid.2, hk, hshape⟩
 
-theorem CalmP.addUpdate (u : Member) (hu : CalmM τ ids u) : CalmP E τ ids (Foca.addUpdate E u) := by
+theorem CalmP.addUpdate (u : Member) (hu : CalmM τ ids u) : CalmP E τ ids K (Foca.addUpdate E u) := by
   unfold Foca.addUpdate
   refine PresE.modS_of (fun s eff hs => ?_)
   obtain ⟨⟨hid, hinc, ha, hcc, hcu⟩, heff⟩ := hs
@@ -293,14 +294,14 @@ theorem CalmP.addUpdate (u : Member) (hu : CalmM τ ids u) : CalmP E τ ids (Foc
   · rw [he]; exact ⟨u, rfl, hu⟩
 
 theorem CalmP.chooseLoop (w : Nat) (pick : Member → Bool) (l : List Member) :
-    PresER (CalmSent E τ ids) (fun r => ∀ m ∈ r, m ∈ l ∧ pick m = true) (Foca.chooseLoop w pick l [] 0) :=
+    PresER (CalmSent E τ ids K) (fun r => ∀ m ∈ r, m ∈ l ∧ pick m = true) (Foca.chooseLoop w pick l [] 0) :=
   PresER.chooseLoop w pick l
 
-theorem CalmP.setHst (h' : HSt) : CalmP E τ ids (Foca.modS fun s => { s with hst := h' }) :=
-  CalmP.modS_same E τ ids (fun _ => ⟨rfl, rfl, rfl, rfl, rfl, rfl⟩)
+theorem CalmP.setHst (h' : HSt) : CalmP E τ ids K (Foca.modS fun s => { s with hst := h' }) :=
+  CalmP.modS_same E τ ids K (fun _ => ⟨rfl, rfl, rfl, rfl, rfl, rfl⟩)
 
 theorem CalmP.addCustom (h' : HSt) (key : Key) (data : Bytes) (hd : 1 ≤ data.length) :
-    CalmP E τ ids (Foca.modS fun s =>
+    CalmP E τ ids K (Foca.modS fun s =>
       { s with hst := h', custom := addOrReplace s.custom E.handler.invalidates key data s.cfg.maxTx }) :=
   PresE.modS_of (fun s eff hs => by
     obtain ⟨⟨hid, hinc, ha, hcc, hcu⟩, heff⟩ := hs
@@ -322,8 +323,8 @@ macro "calm_step" : tactic => `(tactic| first
   | exact PresE.badOracle _
   | exact PresE.drawIdx _ _
   | exact PresE.nextPick
-  | exact CalmP.emit _ _ _ _ rfl rfl
-  | exact CalmP.modS_same _ _ _ (fun _ => ⟨rfl, rfl, rfl, rfl, rfl, rfl⟩)
+  | exact CalmP.emit _ _ _ _ _ rfl rfl
+  | exact CalmP.modS_same _ _ _ _ (fun _ => ⟨rfl, rfl, rfl, rfl, rfl, rfl⟩)
   | with_reducible apply PresE.bind
   | with_reducible apply PresE.ite
   | (intro _; try dsimp only)
@@ -332,67 +333,67 @@ macro "calm_step" : tactic => `(tactic| first
 macro "calm" : tactic => `(tactic| repeat' calm_step)
 
 section
-variable (E : Env) (τ : Id → Nat) (ids : List Id)
+variable (E : Env) (τ : Id → Nat) (ids : List Id) (K : Msg → Prop)
 
-theorem CalmP.sendAll (msg : Msg) (ds : List Id) (hm : MsgWire msg) (hnt : msg ≠ .turnUndead)
-    (hds : ∀ d ∈ ds, IdWire d) : CalmP E τ ids (Foca.sendAll E msg ds) := by
+theorem CalmP.sendAll (msg : Msg) (ds : List Id) (hm : MsgWire msg) (hnt : K msg)
+    (hds : ∀ d ∈ ds, IdWire d) : CalmP E τ ids K (Foca.sendAll E msg ds) := by
   induction ds with
   | nil => unfold Foca.sendAll; exact PresE.pure _
   | cons d rest ih =>
     unfold Foca.sendAll
-    exact PresE.bind (CalmP.sendMessage E τ ids d msg (hds d (by simp)) hm hnt)
+    exact PresE.bind (CalmP.sendMessage E τ ids K d msg (hds d (by simp)) hm hnt)
       (fun _ => ih (fun x hx => hds x (by simp [hx])))
 
-theorem CalmP.chooseAndSend (num : Nat) (msg : Msg) (hm : MsgWire msg) (hnt : msg ≠ .turnUndead) :
-    CalmP E τ ids (Foca.chooseAndSend E num msg) := by
+theorem CalmP.chooseAndSend (num : Nat) (msg : Msg) (hm : MsgWire msg) (hnt : K msg) :
+    CalmP E τ ids K (Foca.chooseAndSend E num msg) := by
   unfold Foca.chooseAndSend
   refine PresE.getS_with (fun s eff hs => ?_)
-  refine PresER.bind (CalmP.chooseLoop E τ ids _ _ _) (fun chosen hch => ?_)
-  refine CalmP.sendAll E τ ids _ _ hm hnt (fun d hd => ?_)
+  refine PresER.bind (CalmP.chooseLoop E τ ids K _ _ _) (fun chosen hch => ?_)
+  refine CalmP.sendAll E τ ids K _ _ hm hnt (fun d hd => ?_)
   simp only [List.mem_map, List.mem_reverse] at hd
   obtain ⟨m, hm1, hm2⟩ := hd
   rw [← hm2]
   exact (hs.1.2.2.1 m (hch m hm1).1).1.1.1
 
-theorem CalmP.gossip : CalmP E τ ids (Foca.gossip E) := by
+theorem CalmP.gossip (hK : ∀ m, m ≠ .turnUndead → K m) : CalmP E τ ids K (Foca.gossip E) := by
   unfold Foca.gossip
   calm
-  exact CalmP.chooseAndSend E τ ids _ _ trivial (by simp)
+  exact CalmP.chooseAndSend E τ ids K _ _ trivial (hK _ (by simp))
 
-theorem CalmP.announceToDown (num : Nat) : CalmP E τ ids (Foca.announceToDown E num) := by
+theorem CalmP.announceToDown (hK : ∀ m, m ≠ .turnUndead → K m) (num : Nat) : CalmP E τ ids K (Foca.announceToDown E num) := by
   unfold Foca.announceToDown
   refine PresE.getS_with (fun s eff hs => ?_)
-  refine PresER.bind (CalmP.chooseLoop E τ ids _ _ _) (fun chosen hch => ?_)
-  refine CalmP.sendAll E τ ids _ _ trivial (by simp) (fun d hd => ?_)
+  refine PresER.bind (CalmP.chooseLoop E τ ids K _ _ _) (fun chosen hch => ?_)
+  refine CalmP.sendAll E τ ids K _ _ trivial (hK _ (by simp)) (fun d hd => ?_)
   simp only [List.mem_map, List.mem_reverse] at hd
   obtain ⟨m, hm1, hm2⟩ := hd
   rw [← hm2]
   exact (hs.1.2.2.1 m (hch m hm1).1).1.1.1
 
-theorem CalmP.adjustConnectionState : CalmP E τ ids (Foca.adjustConnectionState E) := by
+theorem CalmP.adjustConnectionState : CalmP E τ ids K (Foca.adjustConnectionState E) := by
   unfold Foca.adjustConnectionState Foca.becomeConnected Foca.becomeDisconnected
   calm
 
 theorem CalmP.handleApplySummary (sm : Summary) (u : Member) (b : Bool) (hu : CalmM τ ids u) :
-    CalmP E τ ids (Foca.handleApplySummary E sm u b) := by
+    CalmP E τ ids K (Foca.handleApplySummary E sm u b) := by
   unfold Foca.handleApplySummary
   calm
-  all_goals exact CalmP.addUpdate E τ ids _ hu
+  all_goals exact CalmP.addUpdate E τ ids K _ hu
 
 /-- applying an Alive update about a cluster identity: the member is active afterwards -/
 theorem CalmP.applyUpdate (hd : DistinctAddrs ids) (u : Member) (b : Bool) (hu : CalmM τ ids u) :
-    PresER (CalmSent E τ ids) (fun active => active = true) (Foca.applyUpdate E u b) := by
+    PresER (CalmSent E τ ids K) (fun active => active = true) (Foca.applyUpdate E u b) := by
   unfold Foca.applyUpdate
   refine PresER.getS_with (fun s eff hs => ?_)
   split
   · exact PresER.panicAt _
-  · refine PresER.bindR (CalmP.membersApply E τ ids hd u hu) (fun sm hsm => ?_)
-    refine PresER.bindE (CalmP.handleApplySummary E τ ids sm u b hu) (fun _ => PresER.pure _ ?_)
+  · refine PresER.bindR (CalmP.membersApply E τ ids K hd u hu) (fun sm hsm => ?_)
+    refine PresER.bindE (CalmP.handleApplySummary E τ ids K sm u b hu) (fun _ => PresER.pure _ ?_)
     rw [hsm.2]
     exact hsm.1
 
 theorem CalmP.applyOne (hd : DistinctAddrs ids) (u : Member) (b : Bool) (hu : CalmM τ ids u) :
-    CalmP E τ ids (Foca.applyOne E u b) := by
+    CalmP E τ ids K (Foca.applyOne E u b) := by
   unfold Foca.applyOne
   refine PresE.getS_with (fun s eff hs => ?_)
   split
@@ -406,23 +407,23 @@ theorem CalmP.applyOne (hd : DistinctAddrs ids) (u : Member) (b : Bool) (hu : Ca
       have : s.id = u.id := hd s.id hs.1.1.2 u.id hu.2.2 (by simpa using haddr)
       rw [this] at hne
       simp at hne
-    · exact PresER.bind (CalmP.applyUpdate E τ ids hd u b hu) (fun _ _ => PresE.pure _)
+    · exact PresER.bind (CalmP.applyUpdate E τ ids K hd u b hu) (fun _ _ => PresE.pure _)
 
 theorem CalmP.applyLoop (hd : DistinctAddrs ids) (b : Bool) (us : List Member) (hus : ∀ u ∈ us, CalmM τ ids u) :
-    CalmP E τ ids (Foca.applyLoop E b us) := by
+    CalmP E τ ids K (Foca.applyLoop E b us) := by
   induction us with
   | nil => unfold Foca.applyLoop; exact PresE.pure _
   | cons u rest ih =>
     unfold Foca.applyLoop
-    exact PresE.bind (CalmP.applyOne E τ ids hd u b (hus u (by simp))) (fun _ => ih (fun x hx => hus x (by simp [hx])))
+    exact PresE.bind (CalmP.applyOne E τ ids K hd u b (hus u (by simp))) (fun _ => ih (fun x hx => hus x (by simp [hx])))
 
 theorem CalmP.applyMany (hd : DistinctAddrs ids) (us : List Member) (b : Bool) (hus : ∀ u ∈ us, CalmM τ ids u) :
-    CalmP E τ ids (Foca.applyMany E us b) := by
+    CalmP E τ ids K (Foca.applyMany E us b) := by
   unfold Foca.applyMany
-  exact PresE.bind (CalmP.applyLoop E τ ids hd b us hus) (fun _ => CalmP.adjustConnectionState E τ ids)
+  exact PresE.bind (CalmP.applyLoop E τ ids K hd b us hus) (fun _ => CalmP.adjustConnectionState E τ ids K)
 
 theorem CalmP.customLoop (sender : Option Id) (fuel : Nat) (data : Bytes) :
-    CalmP E τ ids (Foca.customLoop E sender fuel data) := by
+    CalmP E τ ids K (Foca.customLoop E sender fuel data) := by
   induction fuel generalizing data with
   | zero => unfold Foca.customLoop; exact PresE.throwE _
   | succ f ih =>
@@ -440,17 +441,17 @@ theorem CalmP.customLoop (sender : Option Id) (fuel : Nat) (data : Bytes) :
           simp only [hbad, Bool.false_eq_true, if_false]
           calm
           all_goals first
-            | exact CalmP.setHst E τ ids _
-            | exact CalmP.addCustom E τ ids _ _ _ hlen
+            | exact CalmP.setHst E τ ids K _
+            | exact CalmP.addCustom E τ ids K _ _ _ hlen
             | exact ih _
       · exact PresE.throwE _
     · calm
 
 theorem CalmP.handleCustomBroadcasts (data : Bytes) (sender : Option Id) :
-    CalmP E τ ids (Foca.handleCustomBroadcasts E data sender) := by
+    CalmP E τ ids K (Foca.handleCustomBroadcasts E data sender) := by
   unfold Foca.handleCustomBroadcasts
   calm
-  exact CalmP.customLoop E τ ids _ _ _
+  exact CalmP.customLoop E τ ids K _ _ _
 
 /-- the header of a datagram a calm instance accepts: within the wire range, from a cluster identity at an
     incarnation it announced, not a TurnUndead -/
@@ -461,56 +462,59 @@ theorem CalmH.sender {τ : Id → Nat} {ids : List Id} {h : Header} (hh : CalmH 
   ⟨⟨⟨hh.1.1, hh.1.2.1⟩, hh.2.2.1⟩, rfl, hh.2.1⟩
 
 theorem CalmP.probeMod (f : Probe → Probe) (hf : ∀ p, (f p).number = p.number) :
-    CalmP E τ ids (Foca.modS fun s => { s with probe := f s.probe }) :=
-  CalmP.modS_same E τ ids (fun s => ⟨rfl, rfl, rfl, rfl, rfl, hf s.probe⟩)
+    CalmP E τ ids K (Foca.modS fun s => { s with probe := f s.probe }) :=
+  CalmP.modS_same E τ ids K (fun s => ⟨rfl, rfl, rfl, rfl, rfl, hf s.probe⟩)
 
-theorem CalmP.reactToMessage (h : Header) (hh : CalmH τ ids h) : CalmP E τ ids (Foca.reactToMessage E h) := by
+theorem CalmP.reactToMessage (h : Header) (hh : CalmH τ ids h)
+    (hR : ∀ src d r, C18.replyOf src h.msg = some (d, r) → K r) : CalmP E τ ids K (Foca.reactToMessage E h) := by
   unfold Foca.reactToMessage
   refine PresE.getS_with (fun s eff hs => ?_)
   obtain ⟨⟨hsrc, _, _, hmsg⟩, _, _, hntu⟩ := hh
   cases hm : h.msg with
   | ping n =>
     rw [hm] at hmsg
-    exact CalmP.sendMessage E τ ids _ _ hsrc hmsg (by simp)
-  | ack n => exact CalmP.probeMod E τ ids (fun p => p.receiveAck h.src n) (fun p => Probe.receiveAck_number p _ _)
+    exact CalmP.sendMessage E τ ids K _ _ hsrc hmsg (hR h.src _ _ (by rw [hm]; rfl))
+  | ack n => exact CalmP.probeMod E τ ids K (fun p => p.receiveAck h.src n) (fun p => Probe.receiveAck_number p _ _)
   | pingReq t n =>
     rw [hm] at hmsg
     dsimp only
     split
     · exact PresE.throwE _
-    · exact CalmP.sendMessage E τ ids _ _ hmsg.1 ⟨hsrc, hmsg.2⟩ (by simp)
+    · exact CalmP.sendMessage E τ ids K _ _ hmsg.1 ⟨hsrc, hmsg.2⟩ (hR h.src _ _ (by rw [hm]; rfl))
   | indirectPing o n =>
     rw [hm] at hmsg
     dsimp only
     split
     · exact PresE.throwE _
-    · exact CalmP.sendMessage E τ ids _ _ hsrc hmsg (by simp)
+    · exact CalmP.sendMessage E τ ids K _ _ hsrc hmsg (hR h.src _ _ (by rw [hm]; rfl))
   | indirectAck t n =>
     rw [hm] at hmsg
     dsimp only
     split
     · exact PresE.throwE _
-    · exact CalmP.sendMessage E τ ids _ _ hmsg.1 ⟨hsrc, hmsg.2⟩ (by simp)
+    · exact CalmP.sendMessage E τ ids K _ _ hmsg.1 ⟨hsrc, hmsg.2⟩ (hR h.src _ _ (by rw [hm]; rfl))
   | forwardedAck o n =>
     dsimp only
     split
     · exact PresE.throwE _
-    · exact CalmP.probeMod E τ ids (fun p => p.receiveIndirectAck h.src n) (fun p => Probe.receiveIndirectAck_number p _ _)
-  | announce => exact CalmP.sendMessage E τ ids _ _ hsrc trivial (by simp)
+    · exact CalmP.probeMod E τ ids K (fun p => p.receiveIndirectAck h.src n) (fun p => Probe.receiveIndirectAck_number p _ _)
+  | announce => exact CalmP.sendMessage E τ ids K _ _ hsrc trivial (hR h.src _ _ (by rw [hm]; rfl))
   | turnUndead => exact absurd hm hntu
   | gossip => exact PresE.pure _
   | feed => exact PresE.pure _
   | broadcast => exact PresE.pure _
 
-theorem CalmP.replyStage (h : Header) (cres : Option ErrKind) (hh : CalmH τ ids h) :
-    CalmP E τ ids (Foca.replyStage E h cres) := by
+theorem CalmP.replyStage (h : Header) (cres : Option ErrKind) (hh : CalmH τ ids h)
+    (hR : ∀ src d r, C18.replyOf src h.msg = some (d, r) → K r) :
+    CalmP E τ ids K (Foca.replyStage E h cres) := by
   unfold Foca.replyStage
   calm
-  exact CalmP.reactToMessage E τ ids _ hh
+  exact CalmP.reactToMessage E τ ids K _ hh hR
 
 /-- `handle_data` of a datagram that carries Alive claims about cluster identities under a calm header -/
-theorem CalmP.handleData (hd : DistinctAddrs ids) (data : Bytes) (hdat : DataOk E (CalmM τ ids) (CalmH τ ids) data) :
-    CalmP E τ ids (Foca.handleData E data) := by
+theorem CalmP.handleData (hd : DistinctAddrs ids) (data : Bytes) (hdat : DataOk E (CalmM τ ids) (CalmH τ ids) data)
+    (hR : ∀ h rest, E.codec.decHeader data = some (h, rest) → ∀ src d r, C18.replyOf src h.msg = some (d, r) → K r) :
+    CalmP E τ ids K (Foca.handleData E data) := by
   unfold Foca.handleData
   refine PresE.getS_with (fun s eff hs => ?_)
   split
@@ -529,25 +533,25 @@ theorem CalmP.handleData (hd : DistinctAddrs ids) (data : Bytes) (hdat : DataOk 
             · exact PresE.throwE _
             · rename_i updates tail hparse
               obtain ⟨hh, hmem⟩ := hdat h rest hdec
-              refine PresER.bind (CalmP.applyUpdate E τ ids hd _ _ hh.sender) (fun senderActive hact => ?_)
+              refine PresER.bind (CalmP.applyUpdate E τ ids K hd _ _ hh.sender) (fun senderActive hact => ?_)
               split
               · rename_i hna
                 rw [hact] at hna
                 simp at hna
-              · exact PresE.bind (CalmP.applyMany E τ ids hd _ _ (hmem updates tail hparse)) (fun _ =>
-                  PresE.bind (PresE.attempt (CalmP.handleCustomBroadcasts E τ ids _ _)) (fun _ =>
-                    CalmP.replyStage E τ ids _ _ hh))
+              · exact PresE.bind (CalmP.applyMany E τ ids K hd _ _ (hmem updates tail hparse)) (fun _ =>
+                  PresE.bind (PresE.attempt (CalmP.handleCustomBroadcasts E τ ids K _ _)) (fun _ =>
+                    CalmP.replyStage E τ ids K _ _ hh (hR h rest hdec)))
 
-theorem CalmP.probeStartNext : CalmP E τ ids (Foca.probeStartNext E) := by
+theorem CalmP.probeStartNext (hK : ∀ m, m ≠ .turnUndead → K m) : CalmP E τ ids K (Foca.probeStartNext E) := by
   unfold Foca.probeStartNext
-  refine PresER.bind (CalmP.membersNext E τ ids) (fun r hr => ?_)
+  refine PresER.bind (CalmP.membersNext E τ ids K) (fun r hr => ?_)
   split
   · rename_i member
     have hm := hr member rfl
-    refine PresE.bind (CalmP.startProbe E τ ids member) (fun _ => ?_)
+    refine PresE.bind (CalmP.startProbe E τ ids K member) (fun _ => ?_)
     refine PresE.getS_with (fun s eff hs => ?_)
-    refine PresE.bind (CalmP.sendMessage E τ ids _ _ hm.1.1.1 hs.1.2.1.2 (by simp)) (fun _ => ?_)
-    exact CalmP.emit E τ ids _ rfl rfl
+    refine PresE.bind (CalmP.sendMessage E τ ids K _ _ hm.1.1.1 hs.1.2.1.2 (hK _ (by simp))) (fun _ => ?_)
+    exact CalmP.emit E τ ids K _ rfl rfl
   · exact PresE.pure _
 
 /-- the previous probe round raised no suspicion: it was answered, or there was none -/
@@ -562,18 +566,18 @@ theorem probeSuspectFailed_none (c : Ctx) (h : c.s.probe.takeFailed.1 = none) :
   unfold Foca.probeSuspectFailed
   simp only [bind_run, getS_run, modS_run, h, pure_run]
 
-theorem CalmP.probeTail : CalmP E τ ids (do
+theorem CalmP.probeTail (hK : ∀ m, m ≠ .turnUndead → K m) : CalmP E τ ids K (do
     Foca.probeStartNext E
     let s ← Foca.getS
     Foca.emit (.timer s.cfg.probePeriod (.probe s.token)) : M Unit) := by
   calm
-  exact CalmP.probeStartNext E τ ids
+  exact CalmP.probeStartNext E τ ids K hK
 
 /-- `probe_random_member` after an answered round -/
-theorem probeRandomMember_calm (c : Ctx) (hc : CalmSent E τ ids c.s c.eff) (hr : RoundAnswered c.s) :
+theorem probeRandomMember_calm (hK : ∀ m, m ≠ .turnUndead → K m) (c : Ctx) (hc : CalmSent E τ ids K c.s c.eff) (hr : RoundAnswered c.s) :
     match Foca.probeRandomMember E c with
-    | .ok _ c' => CalmSent E τ ids c'.s c'.eff
-    | .err _ c' => CalmSent E τ ids c'.s c'.eff
+    | .ok _ c' => CalmSent E τ ids K c'.s c'.eff
+    | .err _ c' => CalmSent E τ ids K c'.s c'.eff
     | .stuck _ => True := by
   unfold Foca.probeRandomMember
   simp only [bind_run, getS_run]
@@ -585,9 +589,9 @@ theorem probeRandomMember_calm (c : Ctx) (hc : CalmSent E τ ids c.s c.eff) (hr 
       simp only [hv, Bool.not_true, Bool.false_eq_true, if_false, pure_run, bind_run]
       rw [probeSuspectFailed_none E c htf]
       simp only []
-      have hc1 : CalmSent E τ ids { c.s with probe := c.s.probe.takeFailed.2 } c.eff :=
+      have hc1 : CalmSent E τ ids K { c.s with probe := c.s.probe.takeFailed.2 } c.eff :=
         ⟨CalmInv.of_same E τ ids (s := c.s) rfl rfl rfl rfl rfl (Probe.takeFailed_number _) hc.1, hc.2⟩
-      have := (CalmP.probeTail E τ ids).run { c with s := { c.s with probe := c.s.probe.takeFailed.2 } } hc1
+      have := (CalmP.probeTail E τ ids K hK).run { c with s := { c.s with probe := c.s.probe.takeFailed.2 } } hc1
       revert this
       simp only [bind_run, getS_run]
       generalize Foca.probeStartNext E _ = r1
@@ -607,9 +611,9 @@ theorem probeRandomMember_calm (c : Ctx) (hc : CalmSent E τ ids c.s c.eff) (hr 
       have htf : ({ c.s with probe := c.s.probe.clear } : State).probe.takeFailed.1 = none := Probe.clear_takeFailed _
       rw [probeSuspectFailed_none E _ htf]
       simp only []
-      have hc1 : CalmSent E τ ids { c.s with probe := c.s.probe.clear.takeFailed.2 } c.eff :=
+      have hc1 : CalmSent E τ ids K { c.s with probe := c.s.probe.clear.takeFailed.2 } c.eff :=
         ⟨CalmInv.of_same E τ ids (s := c.s) rfl rfl rfl rfl rfl (by rw [Probe.takeFailed_number]; rfl) hc.1, hc.2⟩
-      have := (CalmP.probeTail E τ ids).run { c with s := { c.s with probe := c.s.probe.clear.takeFailed.2 } } hc1
+      have := (CalmP.probeTail E τ ids K hK).run { c with s := { c.s with probe := c.s.probe.clear.takeFailed.2 } } hc1
       revert this
       simp only [bind_run, getS_run]
       generalize Foca.probeStartNext E _ = r1
@@ -625,16 +629,16 @@ theorem probeRandomMember_calm (c : Ctx) (hc : CalmSent E τ ids c.s c.eff) (hr 
         | err e c2 => exact this
         | ok u2 c2 => simpa [throwE] using this
 
-theorem CalmP.pingReqLoop (probed : Id) (ds : List Id) (hp : IdWire probed) (hds : ∀ d ∈ ds, IdWire d) :
-    CalmP E τ ids (Foca.pingReqLoop E probed ds) := by
+theorem CalmP.pingReqLoop (hK : ∀ m, m ≠ .turnUndead → K m) (probed : Id) (ds : List Id) (hp : IdWire probed) (hds : ∀ d ∈ ds, IdWire d) :
+    CalmP E τ ids K (Foca.pingReqLoop E probed ds) := by
   induction ds with
   | nil => unfold Foca.pingReqLoop; exact PresE.pure _
   | cons d rest ih =>
     unfold Foca.pingReqLoop
     refine PresE.getS_with (fun s eff hs => ?_)
     refine PresE.ite (PresE.panicAt _) ?_
-    refine PresE.bind (CalmP.modS_same E τ ids (fun _ => ⟨rfl, rfl, rfl, rfl, rfl, rfl⟩)) (fun _ => ?_)
-    refine PresE.bind (CalmP.sendMessage E τ ids _ _ (hds d (by simp)) ⟨hp, hs.1.2.1.2⟩ (by simp)) (fun _ => ?_)
+    refine PresE.bind (CalmP.modS_same E τ ids K (fun _ => ⟨rfl, rfl, rfl, rfl, rfl, rfl⟩)) (fun _ => ?_)
+    refine PresE.bind (CalmP.sendMessage E τ ids K _ _ (hds d (by simp)) ⟨hp, hs.1.2.1.2⟩ (hK _ (by simp))) (fun _ => ?_)
     exact ih (fun x hx => hds x (by simp [hx]))
 
 theorem isActiveId_mem {ms : List Member} {id : Id} (h : isActiveId ms id = true) : ∃ m ∈ ms, m.id = id := by
@@ -644,8 +648,8 @@ theorem isActiveId_mem {ms : List Member} {id : Id} (h : isActiveId ms id = true
 
 /-- every timer but the probe timer (which needs `RoundAnswered`) and the suspicion timeout (never scheduled by a
     calm instance) -/
-theorem CalmP.handleTimer (t : Timer) (hs2 : ∀ m inc tok, t ≠ .s2d m inc tok) (hpr : ∀ tok, t ≠ .probe tok) :
-    CalmP E τ ids (Foca.handleTimer E t) := by
+theorem CalmP.handleTimer (hK : ∀ m, m ≠ .turnUndead → K m) (t : Timer) (hs2 : ∀ m inc tok, t ≠ .s2d m inc tok) (hpr : ∀ tok, t ≠ .probe tok) :
+    CalmP E τ ids K (Foca.handleTimer E t) := by
   unfold Foca.handleTimer
   refine PresE.getS_with (fun s eff hs => ?_)
   cases t with
@@ -664,7 +668,7 @@ theorem CalmP.handleTimer (t : Timer) (hs2 : ∀ m inc tok, t ≠ .s2d m inc tok
     dsimp only
     split
     · exact PresE.pure _
-    · refine PresE.bind (CalmP.modS_same E τ ids (fun _ => ⟨rfl, rfl, rfl, rfl, rfl, rfl⟩)) (fun _ => ?_)
+    · refine PresE.bind (CalmP.modS_same E τ ids K (fun _ => ⟨rfl, rfl, rfl, rfl, rfl, rfl⟩)) (fun _ => ?_)
       split
       · exact PresE.pure _
       · split
@@ -675,8 +679,8 @@ theorem CalmP.handleTimer (t : Timer) (hs2 : ∀ m inc tok, t ≠ .s2d m inc tok
             have hact' : isActiveId s.ms probed = true := by simpa using hact
             obtain ⟨m, hm, hmid⟩ := isActiveId_mem hact'
             have hp : IdWire probed := by rw [← hmid]; exact (hs.1.2.2.1 m hm).1.1.1
-            refine PresER.bind (CalmP.chooseLoop E τ ids _ _ _) (fun chosen hch => ?_)
-            refine CalmP.pingReqLoop E τ ids probed _ hp (fun d hd => ?_)
+            refine PresER.bind (CalmP.chooseLoop E τ ids K _ _ _) (fun chosen hch => ?_)
+            refine CalmP.pingReqLoop E τ ids K hK probed _ hp (fun d hd => ?_)
             simp only [List.mem_map, List.mem_reverse] at hd
             obtain ⟨m', hm1, hm2⟩ := hd
             rw [← hm2]
@@ -684,38 +688,38 @@ theorem CalmP.handleTimer (t : Timer) (hs2 : ∀ m inc tok, t ≠ .s2d m inc tok
   | pa tok =>
     dsimp only
     calm
-    exact CalmP.chooseAndSend E τ ids _ _ trivial (by simp)
+    exact CalmP.chooseAndSend E τ ids K _ _ trivial (hK _ (by simp))
   | pg tok =>
     dsimp only
     calm
-    exact CalmP.chooseAndSend E τ ids _ _ trivial (by simp)
+    exact CalmP.chooseAndSend E τ ids K _ _ trivial (hK _ (by simp))
   | pad tok =>
     dsimp only
     calm
-    exact CalmP.announceToDown E τ ids _
+    exact CalmP.announceToDown E τ ids K hK _
 
-theorem CalmP.broadcastLoop (ds : List Id) (hds : ∀ d ∈ ds, IdWire d) : CalmP E τ ids (Foca.broadcastLoop E ds) := by
+theorem CalmP.broadcastLoop (hK : ∀ m, m ≠ .turnUndead → K m) (ds : List Id) (hds : ∀ d ∈ ds, IdWire d) : CalmP E τ ids K (Foca.broadcastLoop E ds) := by
   induction ds with
   | nil => unfold Foca.broadcastLoop; exact PresE.pure _
   | cons d rest ih =>
     unfold Foca.broadcastLoop
-    refine PresE.bind (CalmP.sendMessage E τ ids _ _ (hds d (by simp)) trivial (by simp)) (fun _ => ?_)
+    refine PresE.bind (CalmP.sendMessage E τ ids K _ _ (hds d (by simp)) trivial (hK _ (by simp))) (fun _ => ?_)
     calm
     exact ih (fun x hx => hds x (by simp [hx]))
 
-theorem CalmP.broadcastApi : CalmP E τ ids (Foca.broadcastApi E) := by
+theorem CalmP.broadcastApi (hK : ∀ m, m ≠ .turnUndead → K m) : CalmP E τ ids K (Foca.broadcastApi E) := by
   unfold Foca.broadcastApi
   refine PresE.getS_with (fun s eff hs => ?_)
   split
   · exact PresE.pure _
-  · refine PresER.bind (CalmP.chooseLoop E τ ids _ _ _) (fun chosen hch => ?_)
-    refine CalmP.broadcastLoop E τ ids _ (fun d hd => ?_)
+  · refine PresER.bind (CalmP.chooseLoop E τ ids K _ _ _) (fun chosen hch => ?_)
+    refine CalmP.broadcastLoop E τ ids K hK _ (fun d hd => ?_)
     simp only [List.mem_map, List.mem_reverse] at hd
     obtain ⟨m, hm1, hm2⟩ := hd
     rw [← hm2]
     exact (hs.1.2.2.1 m (hch m hm1).1).1.1.1
 
-theorem CalmP.addBroadcast (data : Bytes) : CalmP E τ ids (Foca.addBroadcast E data) := by
+theorem CalmP.addBroadcast (data : Bytes) : CalmP E τ ids K (Foca.addBroadcast E data) := by
   unfold Foca.addBroadcast
   refine PresE.getS_with (fun s eff hs => ?_)
   split
@@ -727,10 +731,10 @@ theorem CalmP.addBroadcast (data : Bytes) : CalmP E τ ids (Foca.addBroadcast E 
       | cons x xs => simp
     calm
     all_goals first
-      | exact CalmP.setHst E τ ids _
-      | exact CalmP.addCustom E τ ids _ _ _ hlen
+      | exact CalmP.setHst E τ ids K _
+      | exact CalmP.addCustom E τ ids K _ _ _ hlen
 
-theorem CalmP.setConfig (cfg : Config) : CalmP E τ ids (Foca.setConfig cfg) := by
+theorem CalmP.setConfig (cfg : Config) : CalmP E τ ids K (Foca.setConfig cfg) := by
   unfold Foca.setConfig
   calm
 
@@ -755,16 +759,16 @@ def CalmOp (s : State) (op : Op) : Prop :=
 /-- after a call: the calm invariant, for the state and everything emitted -/
 def CalmPost {α} (r : R α) : Prop :=
   match r with
-  | .ok _ c' => CalmSent E τ ids c'.s c'.eff
-  | .err _ c' => CalmSent E τ ids c'.s c'.eff
+  | .ok _ c' => CalmSent E τ ids K c'.s c'.eff
+  | .err _ c' => CalmSent E τ ids K c'.s c'.eff
   | .stuck _ => True
 
-theorem CalmP.post {m : M Unit} (hm : CalmP E τ ids m) (r : Res) (c : Ctx) (hc : CalmSent E τ ids c.s c.eff) :
-    CalmPost E τ ids ((do m; pure r : M Res) c) :=
+theorem CalmP.post {m : M Unit} (hm : CalmP E τ ids K m) (r : Res) (c : Ctx) (hc : CalmSent E τ ids K c.s c.eff) :
+    CalmPost E τ ids K ((do m; pure r : M Res) c) :=
   (PresE.bind hm (fun _ => PresE.pure r)).run c hc
 
-theorem probeTimer_calm (tok : Nat) (c : Ctx) (hc : CalmSent E τ ids c.s c.eff) (hr : RoundAnswered c.s) :
-    CalmPost E τ ids ((do Foca.handleTimer E (.probe tok); pure Res.ok : M Res) c) := by
+theorem probeTimer_calm (hK : ∀ m, m ≠ .turnUndead → K m) (tok : Nat) (c : Ctx) (hc : CalmSent E τ ids K c.s c.eff) (hr : RoundAnswered c.s) :
+    CalmPost E τ ids K ((do Foca.handleTimer E (.probe tok); pure Res.ok : M Res) c) := by
   unfold Foca.handleTimer CalmPost
   simp only [bind_run, getS_run]
   by_cases htok : (tok == c.s.token) = true
@@ -772,51 +776,73 @@ theorem probeTimer_calm (tok : Nat) (c : Ctx) (hc : CalmSent E τ ids c.s c.eff)
     by_cases hcn : (c.s.conn != Conn.connected) = true
     · simp only [hcn, if_true, throwE]; exact hc
     · simp only [hcn, Bool.false_eq_true, if_false]
-      have := probeRandomMember_calm E τ ids c hc hr
+      have := probeRandomMember_calm E τ ids K hK c hc hr
       cases hr : Foca.probeRandomMember E c with
       | stuck x => trivial
       | err e c' => rw [hr] at this; exact this
       | ok u c' => rw [hr] at this; simpa [pure_run] using this
   · simp only [htok, Bool.false_eq_true, if_false, pure_run]; exact hc
 
+theorem reply_not_turnUndead {src d : Id} {m r : Msg} (h : C18.replyOf src m = some (d, r)) : r ≠ .turnUndead := by
+  cases m <;> simp [C18.replyOf] at h <;> obtain ⟨_, h2⟩ := h <;> subst h2 <;> simp
+
 /-- **One calm call keeps the instance calm**: state and everything emitted. -/
-theorem CalmSent.step (hd : DistinctAddrs ids) (s : State) (op : Op) (orc : Oracle) (h : CalmInv E τ ids s)
-    (hop : CalmOp E τ ids s op) :
+theorem CalmSent.step (hK : ∀ m, m ≠ .turnUndead → K m) (hd : DistinctAddrs ids) (s : State) (op : Op) (orc : Oracle)
+    (h : CalmInv E τ ids s) (hop : CalmOp E τ ids s op) :
     match Foca.step E s op orc with
-    | .done s' eff _ _ => CalmSent E τ ids s' eff
+    | .done s' eff _ _ => CalmSent E τ ids K s' eff
     | .stuck _ => True := by
-  have h0 : CalmSent E τ ids (Ctx.mk s [] orc).s (Ctx.mk s [] orc).eff := ⟨h, by intro e he; simp at he⟩
-  have key : CalmPost E τ ids (Foca.runOp E op ⟨s, [], orc⟩) := by
+  have h0 : CalmSent E τ ids K (Ctx.mk s [] orc).s (Ctx.mk s [] orc).eff := ⟨h, by intro e he; simp at he⟩
+  have key : CalmPost E τ ids K (Foca.runOp E op ⟨s, [], orc⟩) := by
     cases op with
-    | applyMany us b => exact CalmP.post E τ ids (CalmP.applyMany E τ ids hd us b hop) _ _ h0
-    | data b => exact CalmP.post E τ ids (CalmP.handleData E τ ids hd b hop) _ _ h0
+    | applyMany us b => exact CalmP.post E τ ids K (CalmP.applyMany E τ ids K hd us b hop) _ _ h0
+    | data b => exact CalmP.post E τ ids K (CalmP.handleData E τ ids K hd b hop
+      (fun _ _ _ _ _ _ hr => hK _ (reply_not_turnUndead hr))) _ _ h0
     | timer t =>
       cases t with
       | s2d m inc tok => exact hop.elim
-      | probe tok => exact probeTimer_calm E τ ids tok _ h0 hop
+      | probe tok => exact probeTimer_calm E τ ids K hK tok _ h0 hop
       | indirect p tok =>
-        exact CalmP.post E τ ids (CalmP.handleTimer E τ ids (.indirect p tok) (by intros; simp) (by intros; simp)) _ _ h0
+        exact CalmP.post E τ ids K (CalmP.handleTimer E τ ids K hK (.indirect p tok) (by intros; simp) (by intros; simp)) _ _ h0
       | rm id =>
-        exact CalmP.post E τ ids (CalmP.handleTimer E τ ids (.rm id) (by intros; simp) (by intros; simp)) _ _ h0
+        exact CalmP.post E τ ids K (CalmP.handleTimer E τ ids K hK (.rm id) (by intros; simp) (by intros; simp)) _ _ h0
       | pa tok =>
-        exact CalmP.post E τ ids (CalmP.handleTimer E τ ids (.pa tok) (by intros; simp) (by intros; simp)) _ _ h0
+        exact CalmP.post E τ ids K (CalmP.handleTimer E τ ids K hK (.pa tok) (by intros; simp) (by intros; simp)) _ _ h0
       | pg tok =>
-        exact CalmP.post E τ ids (CalmP.handleTimer E τ ids (.pg tok) (by intros; simp) (by intros; simp)) _ _ h0
+        exact CalmP.post E τ ids K (CalmP.handleTimer E τ ids K hK (.pg tok) (by intros; simp) (by intros; simp)) _ _ h0
       | pad tok =>
-        exact CalmP.post E τ ids (CalmP.handleTimer E τ ids (.pad tok) (by intros; simp) (by intros; simp)) _ _ h0
-    | announce d => exact CalmP.post E τ ids (CalmP.sendMessage E τ ids d .announce hop trivial (by simp)) _ _ h0
-    | gossip => exact CalmP.post E τ ids (CalmP.gossip E τ ids) _ _ h0
-    | broadcast => exact CalmP.post E τ ids (CalmP.broadcastApi E τ ids) _ _ h0
+        exact CalmP.post E τ ids K (CalmP.handleTimer E τ ids K hK (.pad tok) (by intros; simp) (by intros; simp)) _ _ h0
+    | announce d => exact CalmP.post E τ ids K (CalmP.sendMessage E τ ids K d .announce hop trivial (hK _ (by simp))) _ _ h0
+    | gossip => exact CalmP.post E τ ids K (CalmP.gossip E τ ids K hK) _ _ h0
+    | broadcast => exact CalmP.post E τ ids K (CalmP.broadcastApi E τ ids K hK) _ _ h0
     | leave => exact hop.elim
     | addBroadcast b =>
-      have := (PresE.bind (CalmP.addBroadcast E τ ids b) (fun r => PresE.pure (Res.okBool r))).run _ h0
+      have := (PresE.bind (CalmP.addBroadcast E τ ids K b) (fun r => PresE.pure (Res.okBool r))).run _ h0
       exact this
     | changeIdentity i p => exact hop.elim
     | reuseDown => exact hop.elim
-    | setConfig cfg => exact CalmP.post E τ ids (CalmP.setConfig E τ ids cfg) _ _ h0
+    | setConfig cfg => exact CalmP.post E τ ids K (CalmP.setConfig E τ ids K cfg) _ _ h0
   unfold Foca.step
   unfold CalmPost at key
   cases hr : Foca.runOp E op ⟨s, [], orc⟩ with
+  | stuck x => trivial
+  | ok r c => rw [hr] at key; exact key
+  | err e c => rw [hr] at key; exact key
+
+/-- **One calm delivery, by kind**: the datagrams sent while handling a calm datagram have only kinds that answer
+    the kind delivered (`K` is any predicate containing the reply table's answer to it). -/
+theorem CalmSent.deliver (hd : DistinctAddrs ids) (s : State) (data : Bytes) (orc : Oracle) (h : CalmInv E τ ids s)
+    (hop : DataOk E (CalmM τ ids) (CalmH τ ids) data)
+    (hR : ∀ h rest, E.codec.decHeader data = some (h, rest) → ∀ src d r, C18.replyOf src h.msg = some (d, r) → K r) :
+    match Foca.step E s (.data data) orc with
+    | .done s' eff _ _ => CalmSent E τ ids K s' eff
+    | .stuck _ => True := by
+  have h0 : CalmSent E τ ids K (Ctx.mk s [] orc).s (Ctx.mk s [] orc).eff := ⟨h, by intro e he; simp at he⟩
+  have key : CalmPost E τ ids K (Foca.runOp E (.data data) ⟨s, [], orc⟩) :=
+    CalmP.post E τ ids K (CalmP.handleData E τ ids K hd data hop hR) _ _ h0
+  unfold Foca.step
+  unfold CalmPost at key
+  cases hr : Foca.runOp E (.data data) ⟨s, [], orc⟩ with
   | stuck x => trivial
   | ok r c => rw [hr] at key; exact key
   | err e c => rw [hr] at key; exact key
